@@ -91,6 +91,8 @@ class CBase58Data(bytes):
     """
     def __new__(cls, s):
         k = decode(s)
+        if len(k) < 5:
+            raise Base58ChecksumError('Data too short for a version byte and a checksum: %d bytes' % len(k))
         verbyte, data, check0 = k[0:1], k[1:-4], k[-4:]
         check1 = bitcoin.core.Hash(verbyte + data)[:4]
         if check0 != check1:
